@@ -3,6 +3,9 @@ import TexcraftModel.Model.C11
 import TexcraftModel.Model.C11Bridge
 import TexcraftModel.Model.C11Norm
 import TexcraftModel.Model.C11Words
+import TexcraftModel.Model.C11Predict
+import TexcraftModel.Model.C11Layers
+import TexcraftModel.Model.C11Header
 
 /-! Driver for C11. A *program* is written
 `<rb|-1> <lb|-1> <n> (<next|-1> <right> <kind> <a> <b>)*n <m> (<char> <entry>)*m <k> <kern>*k`
@@ -25,6 +28,9 @@ with kind 0 `kern a`, 1 `kernAt a`, 2 `lig a b`, 3 `redirect a (b≠0)`.
                                    pl_to_tfm(tfm_to_pl(·)): `decodeRaw`, `packKerns`, `unpackAll`, `printParse`, `unpackKerns`,
                                    `pack`, `encodeWord` (`fail` if a step has no result); `rr`: a reachable word is a redirect
                                    word (shape of C11-f), `dl`: a label without a step after the trip (shape of C11-b)
+* `chars <n> (<code> <wi> <hi> <di> <ii> <tag> <rem>)*n <nw> w* <nh> h* <nd> d* <ni> i* <ne> (<t> <m> <b> <r>)*ne`
+                                 → the same format: the model's `charsTrip` (lig remainders untouched), or `lossy` / `notok`
+* `header <safe 0|1> <byte>*`  → the header bytes the model (`headerTrip`) predicts for t1, or `notok`
 * `dims <max> <n> <v>*n`        → `<table>* | <index of each v>*` (early-exit path of `compress`), or `lossy`
 -/
 open C11 Proto
@@ -115,12 +121,6 @@ def encItem : Item → List Int
   | .stop => [3]
   | .skip n => [4, (n : Int)]
 
-def insertByChar (x : Nat × Nat) : List (Nat × Nat) → List (Nat × Nat)
-  | [] => [x]
-  | y :: ys => if x.1 ≤ y.1 then x :: y :: ys else y :: insertByChar x ys
-
-def sortByChar (l : List (Nat × Nat)) : List (Nat × Nat) := l.foldr insertByChar []
-
 def decWords : Nat → Cur → Option (List Word × Cur)
   | 0, c => some ([], c)
   | n + 1, a :: b :: c :: d :: t =>
@@ -168,6 +168,42 @@ def decQuints : Nat → Cur → Option (List (Nat × List Nat) × Cur)
     | some (rs, t) => some ((ch.toNat, ([a, b, c].filter (· ≠ 0)).map Int.toNat ++ [d.toNat]) :: rs, t)
     | none => none
   | _, _ => none
+
+def decRows : Nat → Cur → Option (List CharRow × Cur)
+  | 0, c => some ([], c)
+  | n + 1, a :: b :: c :: d :: e :: f :: g :: t =>
+    match decRows n t with
+    | some (rs, t) => some (⟨a.toNat, b.toNat, c.toNat, d.toNat, e.toNat, f.toNat, g.toNat⟩ :: rs, t)
+    | none => none
+  | _, _ => none
+
+def decRecipes : Nat → Cur → Option (List Recipe × Cur)
+  | 0, c => some ([], c)
+  | n + 1, a :: b :: c :: d :: t =>
+    match decRecipes n t with
+    | some (rs, t) => some (⟨a.toNat, b.toNat, c.toNat, d.toNat⟩ :: rs, t)
+    | none => none
+  | _, _ => none
+
+def decChars (c : Cur) : Option RawChars := do
+  match c with
+  | n :: t =>
+    let (rows, t) ← decRows n.toNat t
+    let (w, t) ← takeList t
+    let (h, t) ← takeList t
+    let (d, t) ← takeList t
+    let (i, t) ← takeList t
+    match t with
+    | ne :: t =>
+      let (ext, t) ← decRecipes ne.toNat t
+      if t.isEmpty then pure ⟨rows, w, h, d, i, ext⟩ else none
+    | [] => none
+  | [] => none
+
+def encChars (x : RawChars) : List Int :=
+  [(x.rows.length : Int)] ++ (x.rows.map fun r => [(r.code : Int), (r.wi : Int), (r.hi : Int), (r.di : Int), (r.ii : Int), (r.tag : Int), (r.rem : Int)]).flatten ++
+  [(x.W.length : Int)] ++ x.W ++ [(x.H.length : Int)] ++ x.H ++ [(x.D.length : Int)] ++ x.D ++ [(x.I.length : Int)] ++ x.I ++
+  [(x.ext.length : Int)] ++ (x.ext.map fun r => [(r.top : Int), (r.mid : Int), (r.bot : Int), (r.rep : Int)]).flatten
 
 def handle (line : String) : String :=
   match words line with
@@ -229,25 +265,19 @@ def handle (line : String) : String :=
   | "predict" :: ws =>
     match ints? ws >>= decRawAll with
     | some (ws0, es0, ks0, []) =>
-      let p0 := decodeRaw ws0
-      let pre : Prog := ⟨packKerns ks0 p0.instrs, p0.lb, p0.rb⟩
-      let es := unpackAll p0.instrs es0
-      let rr := !noReachRedirect pre.instrs (reachable pre es)
-      let q := printParse pre es
+      let b : RawLK := ⟨ws0, es0, ks0⟩
+      let pre := preOf b
+      let rr := !noReachRedirect pre.1.instrs (reachable pre.1 pre.2)
+      let q := plOf b
       let n := q.1.instrs.length
       let dl := q.2.any (fun ce => decide (n ≤ ce.2)) || (match q.1.lb with | some l => decide (n ≤ l) | none => false)
-      let u := unpackKerns q.1.instrs
       let head := s!"rr={b2i rr} dl={b2i dl} | "
-      match pack ⟨u.1, q.1.lb, q.1.rb⟩ q.2 with
+      match predict b with
       | none => head ++ "fail"
-      | some (P, pe) =>
-        match P.instrs.mapM (encodeWord P.rb) with
-        | none => head ++ "fail"
-        | some ws =>
-          let words : List Int := (ws.map fun w => [(w.b0 : Int), (w.b1 : Int), (w.b2 : Int), (w.b3 : Int)]).flatten
-          let es := sortByChar pe
-          head ++ showInts ([(ws.length : Int)] ++ words ++ [(es.length : Int)] ++
-            (es.map fun e => [(e.1 : Int), (e.2 : Int)]).flatten ++ [(u.2.length : Int)] ++ u.2)
+      | some b1 =>
+        let words : List Int := (b1.words.map fun w => [(w.b0 : Int), (w.b1 : Int), (w.b2 : Int), (w.b3 : Int)]).flatten
+        head ++ showInts ([(b1.words.length : Int)] ++ words ++ [(b1.ligs.length : Int)] ++
+          (b1.ligs.map fun e => [(e.1 : Int), (e.2 : Int)]).flatten ++ [(b1.kerns.length : Int)] ++ b1.kerns)
     | _ => "bad-request"
   | "rawsem" :: ws =>
     match ints? ws >>= decRaw with
@@ -271,6 +301,15 @@ def handle (line : String) : String :=
         | _ => "bad-request"
       | _ => "bad-request"
     | _ => "bad-request"
+  | "chars" :: ws =>
+    match ints? ws >>= decChars with
+    | some x =>
+      if !charsOk x then "notok" else if !lossless x then "lossy" else showInts (encChars (charsTrip x))
+    | none => "bad-request"
+  | "header" :: sf :: ws =>
+    match nats? ws with
+    | some hb => if !headerOk hb then "notok" else showNats (headerTrip (sf == "1") hb)
+    | none => "bad-request"
   | "dims" :: ws =>
     match ints? ws with
     | some (mx :: n :: vs) =>
